@@ -111,11 +111,25 @@ theorem simple_modify_req (f : St → St)
 theorem simple_assign_eval (h v : String) : Simple (do varAssignment h v false; varEvaluation h false : BM String) :=
   simple_bind _ _ (simple_varAssignment _ _ _) (fun _ => simple_varEvaluation _ _)
 
+theorem simple_varAssignArith (n l o r : String) (g : Bool) : Simple (varAssignArith n l o r g) := by
+  unfold varAssignArith
+  exact simple_bind _ _ simple_get (fun _ => simple_addLine _ rfl)
+
+theorem simple_varAssignTest (n : String) (t : Test) (a b : String) (g : Bool) : Simple (varAssignTest n t a b g) := by
+  unfold varAssignTest
+  exact simple_bind _ _ simple_get (fun _ => simple_addLine _ rfl)
+
+theorem simple_arith_eval (h l o r : String) : Simple (do varAssignArith h l o r false; varEvaluation h false : BM String) :=
+  simple_bind _ _ (simple_varAssignArith _ _ _ _ _) (fun _ => simple_varEvaluation _ _)
+
+theorem simple_test_eval (h : String) (t : Test) (a b : String) : Simple (do varAssignTest h t a b false; varEvaluation h false : BM String) :=
+  simple_bind _ _ (simple_varAssignTest _ _ _ _ _) (fun _ => simple_varEvaluation _ _)
+
 theorem simple_unaryOp (e o : String) : Simple (unaryOp e o) := by
   unfold unaryOp
   refine simple_bind _ _ simple_nextHelperVar (fun h => ?_)
   split
-  · exact simple_assign_eval _ _
+  · exact simple_test_eval _ _ _ _
   · exact simple_fail _
 
 theorem simple_binaryOp (l o r : String) (t : ValueType) : Simple (binaryOp l o r t) := by
@@ -125,7 +139,7 @@ theorem simple_binaryOp (l o r : String) (t : ValueType) : Simple (binaryOp l o 
   · exact simple_fail _
   · split
     · split
-      · exact simple_assign_eval _ _
+      · exact simple_arith_eval _ _ _ _
       · exact simple_fail _
     · split
       · exact simple_assign_eval _ _
@@ -136,12 +150,12 @@ theorem simple_comparisonOp (l o r : String) (t : ValueType) : Simple (compariso
   unfold comparisonOp comparisonOpWith
   split
   · exact simple_fail _
-  · exact simple_bind _ _ simple_nextHelperVar (fun h => simple_assign_eval _ _)
+  · exact simple_bind _ _ simple_nextHelperVar (fun h => simple_test_eval _ _ _ _)
 
 theorem simple_logicalOp (l o r : String) : Simple (logicalOp l o r) := by
   unfold logicalOp
   split
-  · exact simple_bind _ _ simple_nextHelperVar (fun h => simple_assign_eval _ _)
+  · exact simple_bind _ _ simple_nextHelperVar (fun h => simple_test_eval _ _ _ _)
   · exact simple_fail _
 
 theorem simple_sahInits (arr : String) : ∀ (vs : List String) (i : Nat), Simple (sahInits arr vs i) := by
@@ -221,7 +235,7 @@ theorem simple_copyOp (d s : String) (g : Bool) : Simple (copyOp d s g) := by
 
 theorem simple_existsOp (p : String) : Simple (existsOp p) := by
   unfold existsOp
-  exact simple_bind _ _ simple_nextHelperVar (fun _ => simple_assign_eval _ _)
+  exact simple_bind _ _ simple_nextHelperVar (fun _ => simple_test_eval _ _ _ _)
 
 theorem simple_readFile (p : String) : Simple (readFile p) := by
   unfold readFile
